@@ -653,7 +653,7 @@ func (ex *Exec) callBuiltin(b *ssa.Builtin, args []Value, site ssa.CallInstructi
 			}
 			for i := 0; i < n; i++ {
 				c := dst.Arr.E[dst.Off+i]
-				if c.Own != nil {
+				if c.Own != nil && !identicalValue(c.V, tmp[i]) {
 					ex.recordWrite(c.Own, fr)
 				}
 				c.V = tmp[i]
@@ -746,8 +746,9 @@ func (ex *Exec) appendOp(dst, src Value, site ssa.CallInstruction, fr *frame) Va
 		// in place: writes into the shared backing array
 		for i, v := range elems {
 			c := d.Arr.E[d.Off+d.Len+i]
-			if c.Own != nil {
+			if c.Own != nil && !identicalValue(c.V, v) {
 				ex.recordWrite(c.Own, fr)
+				ex.writes[len(ex.writes)-1].pos += " (append in place: " + showValue(c.V) + " <- " + showValue(v) + ")"
 			}
 			ex.raceWrite(c.acc(), fr)
 			c.V = v
